@@ -155,7 +155,7 @@ static inline void _rtr_mgr_cb_state_shutdown(const struct rtr_socket *sock, str
 	bool all_down = true;
 
 	for (unsigned int i = 0; i < group->sockets_len; i++) {
-		if (group->sockets[i]->state != RTR_SHUTDOWN) {
+		if (group->sockets[i]->state != RTR_SHUTDOWN && group->sockets[i]->state != RTR_CLOSED) {
 			all_down = false;
 			break;
 		}
